@@ -41,8 +41,9 @@ func maintPassCount(tier string) int {
 
 type mpNode struct {
 	speer
-	class   byte // 'g' good, 'a' aged (answered 20 minutes ago), 'n' never heard from, 'b' bad (failed flag), 'B' aged + failed flag
-	answers bool // answers the maintainer's ping
+	class    byte // 'g' good, 'a' aged (answered 20 minutes ago), 'n' never heard from, 'b' bad (failed flag), 'B' aged + failed flag
+	answers  bool // answers the maintainer's ping
+	fanswers bool // answers find_node (bootstrap, bucket refresh) with an empty node list
 }
 
 // maintainerSleeping: the TableMaintainer goroutine is in the select of TableMaintainer itself (its pause between
@@ -181,6 +182,14 @@ func runMaintPassCase(seed uint64, k, idx int) {
 	for i, n := 0, r.intn(7); i < n; i++ {
 		mk(depth+1+r.intn(6), []byte{'g', 'a', 'n', 'b', 'B'}[r.intn(5)], r.bool())
 	}
+	// every other case: up to 7 contacts (fewer than K, so that no traversal's result set fills and every seed is asked)
+	// also answer find_node, with an empty node list: they have just responded when the pass begins - a bad one is bad
+	// no longer - and the not-bad ones among them respond again in every refresh
+	if k%2 == 1 {
+		for i, n := 0, 1+r.intn(7); i < n; i++ {
+			nodes[r.intn(len(nodes))].fanswers = true
+		}
+	}
 	cfg := &dht.ServerConfig{
 		NodeId:           root,
 		Conn:             conn,
@@ -233,7 +242,7 @@ func runMaintPassCase(seed uint64, k, idx int) {
 		}
 		mu.Unlock()
 		n := byAddr[to.String()]
-		will := n != nil && m.Q == "ping" && (inSetup || n.answers)
+		will := n != nil && (m.Q == "ping" && (inSetup || n.answers) || m.Q == "find_node" && !inSetup && n.fanswers)
 		gidAnswered.Store(curGid(), will)
 		if !will {
 			return
@@ -282,7 +291,7 @@ func runMaintPassCase(seed uint64, k, idx int) {
 	}
 	snap0, _ := s.VerifTableSnapshot()
 	slotOf := map[string]int{}
-	var ntoks, atoks []string
+	var ntoks, atoks, ftoks []string
 	for _, v := range snap0 {
 		slotOf[mpAddrTok(udp(v.IP, v.Port))] = v.Bucket
 		ntoks = append(ntoks, fmt.Sprintf("%d/%s/%s/%d/%d/%d/%d/%s", v.Bucket, hx(v.Id[:]), hx(v.IP), v.Port, v.QueryAgeNs, v.ResponseAgeNs, b2i(v.Failed), clsOf(v)))
@@ -290,6 +299,9 @@ func runMaintPassCase(seed uint64, k, idx int) {
 	for _, n := range nodes {
 		if n.answers {
 			atoks = append(atoks, fmt.Sprintf("%s/%s/%d", hx(n.id[:]), hx(n.addr.IP), n.addr.Port))
+		}
+		if n.fanswers {
+			ftoks = append(ftoks, fmt.Sprintf("%s/%s/%d", hx(n.id[:]), hx(n.addr.IP), n.addr.Port))
 		}
 	}
 	mu.Lock()
@@ -409,7 +421,10 @@ func runMaintPassCase(seed uint64, k, idx int) {
 	if len(after) > 0 {
 		afterTok = strings.Join(after, ";")
 	}
-	nt, at := "-", "-"
+	nt, at, ft := "-", "-", "-"
+	if len(ftoks) > 0 {
+		ft = strings.Join(ftoks, ",")
+	}
 	if len(ntoks) > 0 {
 		nt = strings.Join(ntoks, ",")
 	}
@@ -417,7 +432,7 @@ func runMaintPassCase(seed uint64, k, idx int) {
 		at = strings.Join(atoks, ",")
 	}
 	if ended {
-		emit("mpass %d root=%s nosec=1 nodes=%s answers=%s => boot:%s %s after:%s", idx, hx(root[:]), nt, at, mpSetTok(boot), strings.Join(toks, " "), afterTok)
+		emit("mpass %d root=%s nosec=1 nodes=%s answers=%s fanswers=%s => boot:%s %s after:%s", idx, hx(root[:]), nt, at, ft, mpSetTok(boot), strings.Join(toks, " "), afterTok)
 	}
 	emit("# mpass %d depth=%d nodes=%d datagrams=%d ended=%v", idx, depth, len(nodes), len(log2), ended)
 	s.Close()
